@@ -49,3 +49,12 @@ chk("C11", "exploration",
     "Output equality is by 64-bit SipHash + length inside the driver and sha256 for files; deadlock only via wall-clock watchdog (inconclusive).",
     "runtime monitoring: repeated/concurrent executions with output-equality oracle (processes, histories, threads)",
     "DESIGN.md §4 C11")
+
+chk("C12", "exploration",
+    "Mutants of the repository headers (classified by clang -fsyntax-only), ~120 hostile single constructs alone/paired/spliced, "
+    "deep-nesting and very large inputs, generated programs x option sets from an 85-group flag pool, and enumerated file-system "
+    "and edition/target faults through both the library (typed Result inside catch_unwind in a child) and the CLI. Oracle: exit "
+    "status, signal, 'panicked at' text, leftover output, error variant, and a CPU-time bound per generation.",
+    "Classification trusts the clang CLI to agree with libclang (disagreements are counted, not judged). Non-termination is restated as a CPU bound.",
+    "runtime monitoring: hostile/mutated/fault workloads with crash, error-value and CPU-bound oracles",
+    "DESIGN.md §4 C12")
